@@ -8,7 +8,7 @@
    the presence of the filters come from gen.Extracted (regenerated from watcher.go / reobserve.go / client.go / utils.go
    on every run), so the theorems below are about the code as it is now. *)
 From Coq Require Import List ZArith Bool Lia.
-From WH Require Import gen.Extracted model.AlphWatcher proofs.AlphWatcherProofs proofs.AlphWatcherSafety.
+From WH Require Import gen.Extracted model.AlphWatcher proofs.AlphWatcherBase proofs.AlphWatcherSafety.
 Import ListNotations.
 Open Scope Z_scope.
 
